@@ -236,6 +236,18 @@ pub fn into_iter<T: IntoIterator>(t: T) -> (r: T::IntoIter)
 pub fn array_into_iter<T, const N: usize>(a: [T; N]) -> (r: core::array::IntoIter<T, N>)
     ensures r.obeys_prophetic_iter_laws(), r.decrease() is Some, r.remaining() == a@
 { a.into_iter() }
+/// R20: `it.map(f)` with the facts vstd's `map_postcondition` states, as the contract of a wrapper (A-map: core's Map
+/// adapter applies f to every item in order and ends when the source ends).  Used because this Verus resolves the
+/// IteratorSpec of `Map<..>` unreliably; the trust is the same as for vstd's own Map specification.
+#[verifier::external_body]
+pub fn map_lawful<I: Iterator, B, F: Fn(I::Item) -> B>(it: I, f: F) -> (r: core::iter::Map<I, F>)
+    requires it.obeys_prophetic_iter_laws(), it.decrease() is Some, forall|x: I::Item| call_requires(f, (x,)),
+    ensures
+        iter_lawful(r),
+        iter_yields(r).len() <= it.remaining().len(),
+        forall|k: int| 0 <= k < iter_yields(r).len() ==> call_ensures(f, (it.remaining()[k],), #[trigger] iter_yields(r)[k]),
+        iter_ends(r) ==> iter_yields(r).len() == it.remaining().len() && it.will_return_none(),
+{ it.map(f) }
 /// R18: `(0..count).map(|_| pixel)`; A-map-const: yields `count` copies of the value and then ends (core's Range and
 /// Map; assumed, cross-checked by the bounded Kani harness c07_send_repeated_pixel_bounded)
 #[verifier::external_body]
@@ -266,6 +278,47 @@ pub proof fn lemma_skip_step<T>(s: Seq<T>, a: int)
 {
     assert(s.skip(a).drop_first() =~= s.skip(a + 1));
 }
+
+// ------------------------------------------------------------------------------- heapless::Vec (batch.rs)
+#[verifier::external_type_specification]
+#[verifier::external_body]
+#[verifier::accept_recursive_types(T)]
+pub struct ExHVec<T, const N: usize>(heapless::Vec<T, N>);
+/// sequence view of a heapless vector (capacity N).  The contracts below are the documented behaviour of heapless 0.8
+/// (assumed; the Kani batch harnesses execute the real crate).
+pub uninterp spec fn hv<T, const N: usize>(v: heapless::Vec<T, N>) -> Seq<T>;
+#[verifier::external_body]
+pub broadcast proof fn axiom_hv_len<T, const N: usize>(v: heapless::Vec<T, N>)
+    ensures #[trigger] hv(v).len() <= N
+{}
+pub assume_specification<T, const N: usize> [heapless::Vec::<T, N>::new] () -> (r: heapless::Vec<T, N>)
+    ensures hv(r) == Seq::<T>::empty();
+pub assume_specification<T, const N: usize> [heapless::Vec::<T, N>::clear] (v: &mut heapless::Vec<T, N>)
+    ensures hv(*final(v)) == Seq::<T>::empty();
+pub assume_specification<T, const N: usize> [heapless::Vec::<T, N>::push] (v: &mut heapless::Vec<T, N>, item: T) -> (r: Result<(), T>)
+    ensures
+        hv(*old(v)).len() < N ==> r is Ok && hv(*final(v)) == hv(*old(v)).push(item),
+        hv(*old(v)).len() >= N ==> r == Err::<(), T>(item) && hv(*final(v)) == hv(*old(v));
+pub assume_specification<T: Clone, const N: usize> [heapless::Vec::<T, N>::extend_from_slice] (v: &mut heapless::Vec<T, N>, other: &[T]) -> (r: Result<(), ()>)
+    ensures
+        hv(*old(v)).len() + other@.len() <= N ==> r is Ok && hv(*final(v)) == hv(*old(v)) + other@,
+        hv(*old(v)).len() + other@.len() > N ==> r is Err && hv(*final(v)) == hv(*old(v));
+pub assume_specification<T: Clone, const N: usize> [<heapless::Vec<T, N> as Clone>::clone] (v: &heapless::Vec<T, N>) -> (r: heapless::Vec<T, N>)
+    ensures hv(r) == hv(*v);
+pub assume_specification<T, const N: usize> [<heapless::Vec<T, N> as core::ops::Deref>::deref] (v: &heapless::Vec<T, N>) -> (r: &[T])
+    ensures r@ == hv(*v);
+
+/// the pixel bursts as word sequences
+pub open spec fn px_words<W, const N: usize>(s: Seq<[W; N]>) -> Seq<Seq<W>> { Seq::new(s.len(), |i: int| s[i]@) }
+pub proof fn lemma_mapped_words<C, W, const N: usize>(src: Seq<C>, out: Seq<[W; N]>, enc: spec_fn(C) -> Seq<W>)
+    requires out.len() == src.len(), forall|k: int| 0 <= k < out.len() ==> (#[trigger] out[k])@ == enc(src[k]),
+    ensures Seq::new(out.len(), |i: int| out[i]@) == Seq::new(src.len(), |i: int| enc(src[i])),
+{
+    assert(Seq::new(out.len(), |i: int| out[i]@) =~= Seq::new(src.len(), |i: int| enc(src[i])));
+}
+/// hook used by R20: nothing to prove here, the facts come from vstd's map_postcondition; kept as the single place where
+/// the two prophetic sequences of a `.map(f)` are named
+pub proof fn lemma_map_enc<A, B>(a: Seq<A>, b: Seq<B>) {}
 
 // ---------------------------------------------------------------------------- SPI byte stream (C06)
 /// all words of the writes from position `from` on, concatenated
@@ -434,8 +487,13 @@ pub broadcast proof fn lemma_ctrl_px_pushed<W>(a: Seq<Ev<W>>, b: Seq<Ev<W>>)
 {
     assert(b.len() > 0);
 }
+pub broadcast proof fn lemma_push_px_pushed<W>(a: Seq<Ev<W>>, b: Seq<Seq<W>>)
+    ensures px_pushed(a, #[trigger] a.push(Ev::Px(b)))
+{
+    assert(a.push(Ev::Px(b)).drop_last() =~= a);
+}
 pub broadcast group group_trace {
-    lemma_ctrl_push, lemma_ctrl_px_pushed, axiom_iter_is_into_iter,
+    lemma_ctrl_push, lemma_ctrl_px_pushed, axiom_iter_is_into_iter, axiom_hv_len, lemma_push_px_pushed,
 }
 
 // ------------------------------------------------------------------------- orientation geometry
